@@ -97,7 +97,7 @@ void
 orc_mips_emit_label (OrcCompiler *compiler, unsigned int label)
 {
   ORC_ASSERT (label < ORC_N_LABELS);
-  ORC_ASM_CODE(compiler,".L%s%d:\n", compiler->program->name, label);
+  ORC_ASM_CODE(compiler,".L%s_%d:\n", compiler->program->name, label);
   compiler->labels[label] = compiler->codeptr;
 }
 
@@ -297,14 +297,14 @@ orc_mips_emit_conditional_branch (OrcCompiler *compiler,
   switch (condition) {
   case ORC_MIPS_BEQ:
   case ORC_MIPS_BNE:
-    ORC_ASM_CODE (compiler, "  %s    %s, %s, .L%s%d\n", opcode_name[condition],
+    ORC_ASM_CODE (compiler, "  %s    %s, %s, .L%s_%d\n", opcode_name[condition],
                   orc_mips_reg_name (rs), orc_mips_reg_name (rt),
                   compiler->program->name, label);
     break;
   case ORC_MIPS_BLEZ:
   case ORC_MIPS_BGTZ:
     ORC_ASSERT (rt == ORC_MIPS_ZERO);
-    ORC_ASM_CODE (compiler, "  %s    %s, .L%s%d\n", opcode_name[condition],
+    ORC_ASM_CODE (compiler, "  %s    %s, .L%s_%d\n", opcode_name[condition],
                   orc_mips_reg_name (rs),
                   compiler->program->name, label);
     break;
